@@ -4,6 +4,8 @@ set -e
 cd "$(dirname "$0")"
 export GOFLAGS=-mod=mod GOPROXY=off GOSUMDB=off GOTOOLCHAIN=local
 mkdir -p .work evidence replays
+# regenerate the facts and translations from /repo's working tree before building the proofs against them
+if [ -d extract ]; then (cd extract && go build -tags verif -o ../.work/extract.setup . && ../.work/extract.setup /repo ../lean/RedactVerif/Generated >/dev/null; rm -f ../.work/extract.setup); fi
 (cd lean && lake build)
 (cd harness && go build -tags verif -o ../.work/harness.setup . && rm -f ../.work/harness.setup)
 if [ -d extract ]; then (cd extract && go build -tags verif -o ../.work/extract.setup . && rm -f ../.work/extract.setup); fi
